@@ -17,8 +17,8 @@ pub const SPEC: PropSpec = PropSpec {
 	level: "exploration",
 	rule: "case = history of 0..8 operations on ONE SerializerConfig (allow_slow_sequence_to_bytes on in half of the cases) drawn from {successful serialization with shuffled / reversed field order and unknown-length byte sequences, failure raised inside the value at a random depth (a sub-value that does not fit its node: inside buffered out-of-order fields, array elements, byte sequences), sink I/O error after n bytes for n swept over 0..encoded length, through to_datum / SerializerState::with_owned_config / the container Writer sharing the config}, followed by a probe serialization; oracle: probe bytes == bytes from a fresh configuration (== reference encoding), no panic (pool assert!/expect/unreachable!); distinct by hash(schema shape, history kinds, probe bytes)",
 	assumptions: &["the pool invariant itself (every pooled buffer empty) is additionally read through hook H3 when the crate is built with the verif cfg"],
-	cases: (40_000, 4_000_000),
-	secs: (45, 600),
+	cases: (50_000_000, 4_000_000_000),
+	secs: (30, 600),
 	required: &["probe_equal", "history:fail-in-value", "history:sink-error", "history:ok", "probes_after_failure"],
 	run_case,
 	once: None,
